@@ -50,7 +50,9 @@ def cfg_geo(tier):
 def call_measure(points, normals, m1, m2, voxel, max_nm, max_deg, direction):
     from cryocat import memthick
     with contextlib.redirect_stdout(io.StringIO()):
-        return memthick.measure_thickness_cpu(points.copy(), normals.copy(), m1.copy(), m2.copy(), voxel,
+        # the caller's own arrays are handed over (not copies) and re-used by the following calls: an implementation
+        # that modifies its arguments, or keeps state between calls, shows up in the later calls of the same sheet
+        return memthick.measure_thickness_cpu(points, normals, m1, m2, voxel,
                                               max_thickness_nm=max_nm, max_angle_degrees=max_deg, direction=direction)
 
 
@@ -64,7 +66,7 @@ def call_kernel(points, normals, m1, m2, voxel, max_nm, max_deg, direction, widt
     mc = np.zeros(n, dtype=np.int64)
     memthick.find_matches_parallel(np.ascontiguousarray(points, dtype=np.float64),
                                    np.ascontiguousarray(normals, dtype=np.float64),
-                                   src.copy(), tgt.copy(), np.where(tgt)[0].astype(np.int64),
+                                   src, tgt, np.where(tgt)[0].astype(np.int64),
                                    float(max_nm / voxel), float(np.cos(np.radians(max_deg))), md, mi, mc)
     return md, mi, mc
 
@@ -317,6 +319,7 @@ def run_sheets(ctx, cases, corrupt=None, retry=True):
                  ("relabel", d1, (pts, nrm, m2, m1, voxel, max_nm, deg, d0))]
         failed = False
         base_th = None
+        base_res = None
         for kind, eff, args in calls:
             if corrupt == "swap_call" and kind == "base":
                 args = args[:7] + (d1,)                         # binding demonstration: wrong API call
@@ -329,7 +332,8 @@ def run_sheets(ctx, cases, corrupt=None, retry=True):
             vx = voxel * f if kind == "scaled" else voxel
             mx = max_nm * f if kind == "scaled" else max_nm
             if kind == "base":
-                base_th = np.asarray(res[0], dtype=float)
+                base_th = np.asarray(res[0], dtype=float).copy()
+                base_res = res
             refth = base_th * f if (kind == "scaled" and base_th is not None and len(base_th) == n) else None
             ref = {"base": 0, "moved": 1, "scaled": 1, "swap": 0, "relabel": 4}[kind]
             events.append(measurement_event(kind, eff, res, n, P, Nn, rank[eff], max_vox, deg, vx, mx, ref, refth))
@@ -351,6 +355,8 @@ def run_sheets(ctx, cases, corrupt=None, retry=True):
                 dist = float(np.sqrt(((pts[t] - pts[i]) ** 2).sum())) if 0 <= t < n else -1.0
                 cand.append([i + 1, t + 1, int(round(float(md[i, k]) * SCALE)), int(round(dist * SCALE))])
         events.append({"kind": "kernel", "dir": d0, "cand": cand})
+        # the arrays returned by the first call, looked at again after all later calls
+        events.append(measurement_event("recheck", d0, base_res, n, pts, nrm, rank[d0], max_vox, deg, voxel, max_nm))
         tr = {"id": case["id"], "n": n, "surf": [int(v) for v in surf],
               "adm12": [[s + 1, t + 1, k + 1] for k, (s, t, _) in enumerate(rel["1to2"]["adm"])],
               "adm21": [[s + 1, t + 1, k + 1] for k, (s, t, _) in enumerate(rel["2to1"]["adm"])],
